@@ -6,7 +6,8 @@
    (harness/cmd/c01); the specification (Pbf/Spec.v: elements, encode_block, valid_block) is
    written from osmformat.proto. *)
 From Coq Require Import ZArith List Bool.
-From Verif Require Import Base.Int64 Pbf.Tree Pbf.Model Pbf.Spec Pbf.ProofsArith Pbf.ProofsIndep Pbf.ProofsDecode Pbf.ProofsDense Pbf.ProofsAll.
+From Verif Require Import Base.Int64 Pbf.Tree Pbf.Model Pbf.Spec Pbf.Header Pbf.CheckLib Pbf.ProofsArith Pbf.ProofsIndep
+     Pbf.ProofsDecode Pbf.ProofsDense Pbf.ProofsAll Pbf.ProofsHeader Pbf.ProofsFile.
 Import ListNotations.
 Open Scope Z_scope.
 
@@ -69,7 +70,50 @@ Example C01_witness_run :
   /\ length (elements C01_witness_block) = 4%nat.
 Proof. vm_compute. split; reflexivity. Qed.
 
-(* header_faithful (decode_header (encode_header h) = Ok (header_of h)) and field_order_irrelevant
-   (scan_block c st m = scan_block c st (canon_block m)) are stated in notes/C01_C08.md and are
-   checked per generated file by the correspondence run (judgements 1-3 of C01/Check.v); they are
-   not proved in Coq in this version. *)
+(* 4. header_faithful: Header() reports the header block unchanged — bounding box in integer
+      nanodegrees (left/right/bottom/top -> MinLon/MaxLon/MinLat/MaxLat), required and optional
+      features in order, writing program, source, replication timestamp / sequence number / base
+      url; optional parts that are absent stay absent (no bounds, zero time, "" / 0). *)
+Theorem C01_header_faithful : forall h,
+  valid_header h = true -> decode_header (encode_header h) = Ok (header_of h).
+Proof. exact header_faithful. Qed.
+Print Assumptions C01_header_faithful.
+
+Example C01_witness_header :
+  let h := mkHeaderD (Some (-1000, 2000, 3000, -4000)) [bytes_of_string "DenseNodes"] [[104]] (Some [112]) None
+                     (Some 1395698102) None (Some []) in
+  valid_header h = true /\
+  decode_header (encode_header h)
+  = Ok (mkHeader (Some (-1000, 2000, -4000, 3000)) [bytes_of_string "DenseNodes"] [[104]] [112] [] (Some 1395698102) 0 []).
+Proof. vm_compute. split; reflexivity. Qed.
+
+(* 5. whole files.  (a) one decoder reused for every block; (b) n workers with round-robin dispatch
+      and concatenation in file order, for EVERY n; (c) any assignment of decoder states to blocks
+      (any worker, any history, any schedule): block k contributes exactly the kept elements of
+      block k.  (c) is the statement C02's order theorem composes with: the pipeline LTS of
+      coq/theories/Pipeline treats a block as [IBlock os] with os independent of the worker that
+      decodes it — justified by theorem 1 — and C02's delivered_is_prefix / completes (stated in
+      Properties/C02.v, not yet proved there for every schedule) say that what Scan delivers is the
+      concatenation of the per-block results in file order; with (c) that concatenation is
+      elements_file f.  The round-robin instance (b) is proved here outright. *)
+Theorem C01_scan_file_sequential : forall f, valid_file f = true -> forall c st,
+  scan_blocks c st (encode_file f) = Ok (map (fun b => filter (keeps c) (elements b)) f).
+Proof. exact scan_blocks_encode. Qed.
+Print Assumptions C01_scan_file_sequential.
+
+Theorem C01_scan_file_every_decoder_count : forall f, valid_file f = true -> forall c n,
+  scan_file c n (encode_file f) = Ok (filter (keeps c) (elements_file f)).
+Proof. exact scan_file_encode. Qed.
+Print Assumptions C01_scan_file_every_decoder_count.
+
+Theorem C01_scan_file_any_schedule : forall f, valid_file f = true -> forall c (sts : nat -> dstate),
+  concat (map (fun kb => match scan_result c (sts (fst kb)) (encode_block (snd kb)) with Ok q => q | _ => [] end)
+              (combine (seq 0 (length f)) f))
+  = filter (keeps c) (elements_file f)
+  /\ Forall (fun kb => exists q, scan_result c (sts (fst kb)) (encode_block (snd kb)) = Ok q)
+            (combine (seq 0 (length f)) f).
+Proof. exact blocks_any_states. Qed.
+Print Assumptions C01_scan_file_any_schedule.
+
+(* field_order_irrelevant (every layout / unknown fields) is not yet proved in Coq; it is checked per
+   generated file by the correspondence run (judgements 1-3 of C01/Check.v). *)
